@@ -155,6 +155,30 @@ fn cases(tier: &str) -> Vec<Case> {
     for (what, text) in short_table_texts() {
         out.push(Case::Mutation(Some(format!("short table: {what}")), text));
     }
+    // a base table with a placeholder slot in the middle (`a`, `_vfunc_1`, `c`): the derived block has to
+    // keep every function in its slot
+    let gap_base = "    vftable {\n        pub fn a(&self);\n        #[index(2)]\n        pub fn c(&self);\n    },\n";
+    for (what, derived_block) in [
+        (None, "    vftable {\n        pub fn a(&self);\n        #[index(2)]\n        pub fn c(&self);\n        pub fn extra(&self);\n    },\n"),
+        (None, "    vftable {\n        pub fn a(&self);\n        #[index(2)]\n        pub fn c(&self);\n    },\n"),
+        (Some("placeholder gap closed up"), "    vftable {\n        pub fn a(&self);\n        pub fn c(&self);\n        pub fn extra(&self);\n    },\n"),
+        (Some("placeholder gap closed up, same length"), "    vftable {\n        pub fn a(&self);\n        pub fn c(&self);\n        #[index(2)]\n        pub fn extra(&self);\n    },\n"),
+        (Some("placeholder gap moved"), "    vftable {\n        #[index(1)]\n        pub fn a(&self);\n        pub fn c(&self);\n    },\n"),
+        (Some("function in the base's placeholder slot"), "    vftable {\n        pub fn a(&self);\n        pub fn b(&self);\n        pub fn c(&self);\n    },\n"),
+        (Some("placeholder gap widened"), "    vftable {\n        pub fn a(&self);\n        #[index(3)]\n        pub fn c(&self);\n    },\n"),
+    ] {
+        for mid in [false, true] {
+            let mut t = format!("pub type B {{\n{gap_base}    pub x: *const u8,\n}}\n");
+            let first = if mid {
+                t.push_str("pub type Mid {\n    #[base]\n    pub base: B,\n    pub m: *const u8,\n}\n");
+                "Mid"
+            } else {
+                "B"
+            };
+            t.push_str(&format!("pub type D {{\n{derived_block}    #[base]\n    pub base: {first},\n    pub y: *const u8,\n}}\n"));
+            out.push(Case::Mutation(what.map(|w| format!("gap table: {w}{}", if mid { " (through an intermediate type)" } else { "" })), t));
+        }
+    }
     for (what, block) in mutations() {
         for form in 0..4 {
             out.push(Case::Mutation(what.clone(), mutation_text(&block, form)));
@@ -209,7 +233,7 @@ fn driver(m: &Model) -> String {
 pub fn run(tier: &str, only: Option<&Value>) -> i32 {
     let mut rep = Report::new("C06", tier);
     let all = cases(tier);
-    rep.rule = "E1: (a) every inheritance shape over up to 4 types — each type with an ordered list of 0..3 distinct earlier types as #[base] fields and with or without a vftable block of its own (a block repeats the first base's table and adds one function) — 2 922 shapes; (b) a three-function base table (arguments, return types, an explicit convention) and a derived block that is the compatible prefix, the prefix plus one function, or one of every single-slot mutation (name, receiver mutability, one parameter type, return type, calling convention, slot dropped, two slots swapped), directly, through an intermediate type without a block, and with a second base. Oracle: accepted => compatible (every mutation must be rejected; compatible-but-rejected is counted, not flagged); for accepted shapes rustc asserts base-field offsets, sizes, vftable pointer at offset 0 followed by the first declared field (both widths), syn checks that types whose first base supplies the table have no vftable field and that vftable() is typed with the derived table, and vftable() is executed on the host: it returns the pointer planted at the start of the object. distinct = distinct shapes / mutations".into();
+    rep.rule = "E1: (a) every inheritance shape over up to 4 types — each type with an ordered list of 0..3 distinct earlier types as #[base] fields and with or without a vftable block of its own (a block repeats the first base's table and adds one function) — 2 922 shapes; (b) a three-function base table (arguments, return types, an explicit convention) and a derived block that is the compatible prefix, the prefix plus one function, or one of every single-slot mutation (name, receiver mutability, one parameter type, return type, calling convention, slot dropped, two slots swapped; a base table with a placeholder gap whose derived block closes, moves, widens or fills the gap), directly, through an intermediate type without a block, and with a second base. Oracle: accepted => compatible (every mutation must be rejected; compatible-but-rejected is counted, not flagged); for accepted shapes rustc asserts base-field offsets, sizes, vftable pointer at offset 0 followed by the first declared field (both widths), syn checks that types whose first base supplies the table have no vftable field and that vftable() is typed with the derived table, and vftable() is executed on the host: it returns the pointer planted at the start of the object. distinct = distinct shapes / mutations".into();
     rep.assumptions = vec!["the reference model places a type's own vftable pointer first, then its bases in order, then its own field".into()];
     let only_i = only.map(|l| (l["index"].as_u64().unwrap_or(0) as usize, l["ps"].as_u64().unwrap_or(8) as usize));
     let idxs: Vec<usize> = match only_i {
